@@ -205,7 +205,7 @@ class IfaceDesc:
         return 'Iface(%s m=%r s=%r p=%r)' % (self.name, self.methods, self.signals, self.props)
 
 
-METHOD_NAMES = ['Get', 'Put', 'Frob', 'Echo', 'Sum', 'Ping', 'Quux']
+METHOD_NAMES = ['Fetch', 'Put', 'Frob', 'Echo', 'Sum', 'Ping', 'Quux']
 SIGNAL_NAMES = ['Changed', 'Tick', 'Alert']
 PROP_NAMES = ['Level', 'Name', 'Mode', 'Size']
 SIMPLE_SIGS = ['', 'i', 's', 'ii', 'as', 'u', 'b', 'd', '(is)', 'a{si}', 'v', 'ay', 'x', 'o', 'si', 't', 'n', 'q', 'y', 'g']
